@@ -22,15 +22,22 @@ STRINGS = render.STRING_POOL + ["Name", "LowToHigh", "D:\\surveys\\2019\\07\\plo
                                 "\\\\server\\share", "100%", "#", "[a, b]", "k: v", "(x)", "a = b", " ", "é\\n☃"]
 
 
+NONFINITE = [float("inf"), float("-inf")]          # legal numbers of the programming interface (e.g. an open-ended category bound)
+
+
 def rand_value(rng, kind, names, cmds_by_name, api):
     if kind == "num":
-        return rng.choice(NUMBERS)
+        return rng.choice(NUMBERS) if rng.random() < 0.95 else rng.choice(NONFINITE)
     if kind == "str":
         return rng.choice(STRINGS)
     if kind == "bool":
         return rng.choice([True, False])
     if kind == "nums":
-        return [rng.choice(NUMBERS) for _ in range(rng.randrange(0, 4))]
+        return [rng.choice(NUMBERS) if rng.random() < 0.95 else rng.choice(NONFINITE) for _ in range(rng.randrange(0, 4))]
+    if kind == "strs":
+        # lists of texts with blanks, often longer than a line of an editor
+        return [rng.choice(["neutral / no information", "two  spaces", "a b", "very long " * 5, "x", "low to high (ascending)", " lead", "trail "] + STRINGS[:6])
+                for _ in range(rng.randrange(1, 9))]
     if kind == "nested":
         return [[rng.choice(NUMBERS) for _ in range(rng.randrange(0, 3))] for _ in range(rng.randrange(0, 3))]
     if kind == "tuple":
@@ -64,7 +71,7 @@ def build_program(rng, tmp, api):
                         v = rng.choice(["out.csv", "sub dir/o.csv", "C:\\temp\\new.csv", "é.nc", "a\\b"])
                     args[key] = v
         if cls is m.X:
-            for key, kind in (("Extra1", "str"), ("Extra2", "num"), ("Extra3", "nums")):
+            for key, kind in (("Extra1", "str"), ("Extra2", "num"), ("Extra3", "nums"), ("Extra4", "strs"), ("Extra5", "nested")):
                 if rng.random() < 0.6:
                     args[key] = rand_value(rng, kind, names, objs, api)
         if names:
@@ -95,6 +102,8 @@ def enc_value_for_model(v):
     if isinstance(v, int):
         return "i %d" % v
     if isinstance(v, float):
+        if v in NONFINITE:
+            raise ValueError(v)          # outside the exact-rational model: round trip decided on the implementation only
         return "f " + common.enc_rat(Fraction(Decimal(repr(v))))
     if isinstance(v, str):
         return "s " + enc_str(v)
